@@ -69,11 +69,11 @@ SCENE_CLAUSES = {
     # match.FunctionTypeArgumentProjected is informational: C08 does not forbid it (the generator's choices simply do not mention the
     # method's parameters, and an unmentioned parameter may be projected); counted in the evidence, see DESIGN.md section 5
     "C08": ("instantiate.", "match.OneArgumentPerParameter", "match.NoPrimitiveOrBareArgument", "match.NoException"),
-    "C01": ("match.MemberTyped", "compare."),
+    "C01": ("match.MemberTyped", "compare.", "pick."),
     "C05": ("prune.",),
 }
 INFO = {}
-SCENE_KINDS = {"C08": ("match",), "C01": ("match", "compare"), "C05": ("prune",)}
+SCENE_KINDS = {"C08": ("match",), "C01": ("match", "compare", "pick"), "C05": ("prune",)}
 
 
 def run_scenes(pid, tier, verdict, langs=("java", "kotlin", "groovy", "scala")):
